@@ -63,6 +63,11 @@ func FromError(err error) Outcome {
 	return Outcome{Valid: false, Errors: []string{err.Error()}}
 }
 
+// ResetPoolsOnPanic makes Guard replace the pools after a recovered panic, so that later cases of the
+// same process do not inherit what the panic left behind. The C11 driver switches it off: what a
+// panic leaves behind is exactly what it observes.
+var ResetPoolsOnPanic = true
+
 // Guard runs f and converts a panic into an outcome.
 func Guard(f func() Outcome) (o Outcome) {
 	defer func() {
@@ -70,7 +75,9 @@ func Guard(f func() Outcome) (o Outcome) {
 			o = Outcome{Panic: fmt.Sprint(e), Stack: string(debug.Stack())}
 			// a panic which unwinds a recycling validation leaves the pools corrupted (that is
 			// property C11); later cases of this process must not inherit that
-			validate.VerifResetPools()
+			if ResetPoolsOnPanic {
+				validate.VerifResetPools()
+			}
 		}
 	}()
 	return f()
